@@ -144,7 +144,7 @@ Proof.
                 (cur (h_sm s) = 3%nat /\ abs_state s = Selected)).
   { destruct (abs_state_cases s) as [A|[A|[A|A]]]; auto. exfalso. destruct A as (A0 & A2 & A3). destruct Hc as [C|[C|C]]; auto. }
   clear Hc.
-  destruct e as [| | |stype system status|system wf|stype system|system]; cbn [e37_step abs st waiting closing] in H.
+  destruct e as [| | |stype system status|system w wf|stype system|system]; cbn [e37_step abs st waiting closing] in H.
   - (* connected *)
     destruct Hst as [[C A]|[[C A]|[C A]]]; rewrite A in H; try discriminate H. injection H as <- <-.
     cbn [hs_step]. req "connect". rewrite C in R. cbn in R. destruct R as (Q & L & _ & D).
@@ -211,12 +211,9 @@ Proof.
     assert (Hq : forall x, any_waiting (abs s) x = queued s x) by reflexivity.
     destruct Hst as [[C A]|[[C A]|[C A]]]; rewrite A in H; [discriminate H| |]; rewrite C; cbn [Nat.eqb negb].
     + injection H as <- <-. apply finish_same; [exact Hinv|reflexivity].
-    + destruct wf; [|discriminate H]. rewrite Hq in H. injection H as <- <-.
-      destruct (queued s system) eqn:QD; [fin_unq C C C C|].
-      eapply finish; [exact C|reflexivity|reflexivity|auto|reflexivity|]. cbn.
-      (* nobody waits for these system bytes: dropping them from the open transactions changes nothing *)
-      f_equal. unfold drop, abs; cbn [waiting]. unfold queued in QD. clear -QD. induction (h_queues s) as [|p l IH]; [reflexivity|].
-      cbn [existsb] in QD. apply Bool.orb_false_elim in QD as [Q1 Q2]. cbn [filter]. rewrite Q1. cbn [negb]. f_equal. exact (IH Q2).
+    + destruct wf; [|discriminate H]. rewrite Hq in H.
+      destruct (queued s system && negb w) eqn:QD; injection H as <- <-; [fin_unq C C C C|].
+      apply finish_same; [exact Hinv|reflexivity].
   - (* own request opened *)
     injection H as <- <-. cbn [hs_step].
     destruct Hst as [[C A]|[[C A]|[C A]]].
@@ -256,7 +253,7 @@ Lemma unqueue_inv s x : inv s -> inv (unqueue s x). Proof. intro H; exact H. Qed
 
 Lemma step_inv s e : inv s -> inv (fst (hs_step s e)).
 Proof.
-  intro Hinv. destruct e as [| | |stype system status|system wf|stype system|system]; cbn [hs_step].
+  intro Hinv. destruct e as [| | |stype system status|system w wf|stype system|system]; cbn [hs_step].
   - pose proof (request_shape s "connect" ltac:(cbn; auto) Hinv) as (Q & L & D). destruct (request s "connect") as [s1 r]. cbn [fst] in *.
     apply (inv_of s1 s L Hinv). destruct D as [D|[D1 [D2|D2]]]; [left; exact D|right; auto|discriminate D2].
   - unfold is_connected. change connection_NOT_CONNECTED with 0%nat. destruct (Nat.eqb_spec (cur (h_sm s)) 0) as [E|E]; cbn [negb fst]; [exact Hinv|].
@@ -331,22 +328,22 @@ Proof.
   cbn. destruct Hin as [<-|[<-|[<-|[]]]]; discriminate.
 Qed.
 
-Theorem data_gate s system wf :
+Theorem data_gate s system w wf :
   reachable s -> abs_state s <> Selected ->
-  snd (hs_step s (EvData system wf)) = [OutReject system REASON_NOT_SELECTED] /\ fst (hs_step s (EvData system wf)) = s.
+  snd (hs_step s (EvData system w wf)) = [OutReject system REASON_NOT_SELECTED] /\ fst (hs_step s (EvData system w wf)) = s.
 Proof.
   intros _ Hn. cbn [hs_step]. unfold is_selected. unfold abs_state in Hn.
   destruct (cur (h_sm s) =? connection_CONNECTED_SELECTED)%nat; [contradiction Hn; reflexivity|]. split; reflexivity.
 Qed.
 
-Theorem data_delivered s system :
+Theorem data_delivered s system w :
   reachable s -> abs_state s = Selected ->
-  snd (hs_step s (EvData system true)) = [if queued s system then OutResolve system else OutDeliver system] /\
-  abs_state (fst (hs_step s (EvData system true))) = Selected.
+  snd (hs_step s (EvData system w true)) = [if queued s system && negb w then OutResolve system else OutDeliver system] /\
+  abs_state (fst (hs_step s (EvData system w true))) = Selected.
 Proof.
   intros _ Hn. cbn [hs_step]. unfold is_selected. unfold abs_state in *.
   destruct (cur (h_sm s) =? connection_CONNECTED_SELECTED)%nat eqn:E; [|destruct (cur (h_sm s) =? connection_CONNECTED_NOT_SELECTED)%nat; discriminate Hn].
-  cbn [negb]. destruct (queued s system); cbn [fst snd unqueue h_sm]; rewrite E; split; reflexivity.
+  cbn [negb]. destruct (queued s system && negb w); cbn [fst snd unqueue h_sm]; rewrite E; split; reflexivity.
 Qed.
 
 (* the state after any history on which E37 prescribes every step (no Separate.req among them) *)
@@ -364,5 +361,5 @@ Theorem separate_refuted :
 Proof. exists separate_witness. eexists. eexists. split; [vm_compute; reflexivity|]. split; vm_compute; reflexivity. Qed.
 
 Definition sample_history : list sevent :=
-  [EvConnected; EvData 5 true; EvCtrl 1 8 0; EvData 6 true; EvOpen 5 77; EvData 77 true; EvCtrl 3 9 0; EvData 7 true;
+  [EvConnected; EvData 5 true true; EvCtrl 1 8 0; EvData 6 true true; EvOpen 5 77; EvData 77 true true; EvData 77 false true; EvCtrl 3 9 0; EvData 7 false true;
    EvOpen 1 78; EvCtrl 1 10 0; EvCtrl 2 78 0; EvClosing; EvCtrl 5 11 0; EvClosed; EvConnected; EvCtrl 5 12 0].
